@@ -32,6 +32,16 @@ def step (x : S) (w : List String) : Option (S × String × List String) :=
         (if replay then ["replay"] else []) ++ (if s.srcClosed then ["get_after_srcclose"] else []))
     | .blocked => some (x, "blocked", if s.srcClosed then ["blocked_closed_src"] else ["blocked"])
     | .err e => some (x, "err " ++ errStr e, ["get_err"])
+  | ["pget", n] => do
+    -- n values are sent, then n Gets run (on four goroutines): n polls of the model, in whatever order the goroutines take turns
+    let n ← n.toNat?
+    if x.pendingGet then none else
+    let s1 := (List.range n).foldl (fun s i => send s (7000 + i)) s
+    -- the script is skipped by the harness when the source is closed or too full: mirror the skip conditions
+    if s.srcClosed || s.src.length + n > 256 then some (x, "skipped", []) else
+    let closedErr := s1.closed
+    let s2 := (List.range n).foldl (fun s _ => (getOp s).1) s1
+    some ({ x with st := s2 }, (if closedErr then "get-failed " else "buf ") ++ fmtNats s2.buffer, ["concurrent_gets"])
   | ["bget"] =>
     -- a Get that keeps polling while the following operations run: each poll is one `getOp`
     if x.pendingGet then none else
